@@ -88,6 +88,7 @@ fn dispatch(driver: &str, a: &Args) {
         "c19replay" => c19::run_replay(&a),
         "c20" => c20::run(&a),
         "c20fixed" => c20::run_fixed(&a),
+        "c20race" => c20::run_race(&a),
         "c19stress" => c19::run_stress(&a),
         "c06" | "c07z" | "c09z" | "c10z" | "c11" | "c13" => zd::run_zoned(&a, driver),
         "c08" => civ::run_c08(&a),
